@@ -147,7 +147,21 @@ func runC03(c *eng.Ctx) {
 				if r, isR := m.(*ast.ReturnStmt); isR && len(r.Results) == 1 {
 					n++
 					if !eng.IsNil(winfo, r.Results[0]) && !isCallTo(winfo, r.Results[0], getFirst) {
-						ok = false
+						// a local that is only ever assigned from GetFirst()
+						v, isV := eng.SelObj(winfo, r.Results[0]).(*types.Var)
+						fine := false
+						if isV && !v.IsField() {
+							as := eng.AssignedExprs(winfo, w.Decl.Body, v)
+							fine = len(as) > 0
+							for _, e := range as {
+								if !isCallTo(winfo, e, getFirst) {
+									fine = false
+								}
+							}
+						}
+						if !fine {
+							ok = false
+						}
 					}
 				}
 				return true
